@@ -51,6 +51,13 @@ type loopCtx struct {
 	header  *ssa.BasicBlock
 	ordinal int
 	phiVals map[*ssa.Phi]Val
+	auto    []autoFrame
+}
+
+// autoFrame: a candidate loop frame ("rows of objects that existed before the loop keep their value")
+// assumed at the loop head and checked at every back edge; dropped (Houdini style) if the check fails.
+type autoFrame struct {
+	heap, preH, alloc, key string
 }
 
 const maxInlineDepth = 5
@@ -329,6 +336,8 @@ func (fr *Frame) runRegion(order []*ssa.BasicBlock, set map[*ssa.BasicBlock]bool
 					backStates = append(backStates, es)
 				} else if lc, ok := fr.openLoops[oe.to]; ok {
 					fr.closeLoop(lc, blk, es)
+				} else if !set[oe.to] {
+					// back edge of an enclosing loop that is itself being dry-run: leaves this region
 				} else {
 					u.unsup("back edge to unopened loop in %s", fr.fn)
 				}
@@ -463,8 +472,10 @@ func (fr *Frame) enterLoop(order []*ssa.BasicBlock, h *ssa.BasicBlock, ins []edg
 		invs = fr.fc.Invariants[ord]
 	}
 	for i, c := range invs {
-		t := fr.trInvariant(c, pre, h)
-		u.oblige(pre, "inv-entry", fmt.Sprintf("%s/inv-entry:%d.%s", fr.fnLabel(), ord, clauseName(c, i)), t, blockPos(h), c, "loop invariant holds on entry: "+c.Src)
+		for _, pc := range fr.splitClause(c) {
+			t := fr.trInvariant(pc.c, pre, h)
+			u.oblige(pre, "inv-entry", fmt.Sprintf("%s/inv-entry:%d.%s%s", fr.fnLabel(), ord, clauseName(c, i), pc.suffix), t, blockPos(h), c, "loop invariant holds on entry: "+pc.c.Src)
+		}
 	}
 	// 3. dry run to find touched heaps (and, per heap, the rows written at loop-invariant indices)
 	body := loopBody(h)
@@ -474,18 +485,18 @@ func (fr *Frame) enterLoop(order []*ssa.BasicBlock, h *ssa.BasicBlock, ins []edg
 	}
 	savedRets := fr.rets
 	savedDefers := fr.defers
-	savedRows, savedWhole := u.dryRows, u.dryWhole
-	u.dryRows, u.dryWhole = map[string]map[string]bool{}, map[string]bool{}
+	savedRows, savedWhole, savedFresh := u.dryRows, u.dryWhole, u.dryFresh
+	u.dryRows, u.dryWhole, u.dryFresh = map[string]map[string]bool{}, map[string]bool{}, map[string]bool{}
 	startFresh := u.enc.fresh
 	u.dry++
 	// start the dry run from a state in which every heap has a fresh name, so that any term that
 	// depends on memory is recognisably loop-variant
 	dst := pre.clone()
-	u.cx.epochCtr++
-	dst.epoch = u.cx.epochCtr
+	u.epochCtr++
+	dst.epoch = u.epochCtr
 	dryEpoch := dst.epoch
 	for k := range u.heapSort {
-		if strings.HasPrefix(k, "$defer:") || strings.HasPrefix(k, "$called:") {
+		if strings.HasPrefix(k, "$defer:") || strings.HasPrefix(k, "$called:") || strings.HasPrefix(k, "$count:") || strings.HasPrefix(k, "$cnttrue:") {
 			if _, ok := dst.heaps[k]; !ok {
 				continue
 			}
@@ -495,8 +506,8 @@ func (fr *Frame) enterLoop(order []*ssa.BasicBlock, h *ssa.BasicBlock, ins []edg
 	dstart := dst.clone()
 	backs := fr.runRegion(order, body, h, dst, h)
 	u.dry--
-	rows, whole := u.dryRows, u.dryWhole
-	u.dryRows, u.dryWhole = savedRows, savedWhole
+	rows, whole, freshH := u.dryRows, u.dryWhole, u.dryFresh
+	u.dryRows, u.dryWhole, u.dryFresh = savedRows, savedWhole, savedFresh
 	fr.rets = savedRets
 	fr.defers = savedDefers
 	touched := map[string]bool{}
@@ -523,11 +534,12 @@ func (fr *Frame) enterLoop(order []*ssa.BasicBlock, h *ssa.BasicBlock, ins []edg
 	oldAlloc := u.heapCur(pre, "$alloc")
 	oldClock := u.heapCur(pre, "$clock")
 	var rowCells [][2]string
+	var autos []autoFrame
 	for _, k := range sortedKeys(touched) {
 		srt := u.heapSort[k]
-		rowOK := !whole[k] && len(rows[k]) > 0 && strings.HasPrefix(srt, "(Array Int ")
+		rowOK := !whole[k] && (len(rows[k]) > 0 || freshH[k]) && strings.HasPrefix(srt, "(Array Int ")
 		var invRows []string
-		freshRows := false
+		freshRows := freshH[k]
 		if rowOK {
 			for _, idx := range sortedKeys(rows[k]) {
 				switch {
@@ -556,7 +568,21 @@ func (fr *Frame) enterLoop(order []*ssa.BasicBlock, h *ssa.BasicBlock, ins []edg
 			// only rows of loop-allocated objects (and some loop-invariant rows) are written:
 			// every other pre-existing row keeps its value
 			preH := u.heapCur(pre, k)
+			if u.dry > 0 {
+				// tell the enclosing loop's dry run: framed havoc, not a whole-heap write
+				if u.dryRows[k] == nil {
+					u.dryRows[k] = map[string]bool{}
+				}
+				for _, idx := range invRows {
+					u.dryRows[k][idx] = true
+				}
+				u.dryFresh[k] = true
+			}
+			savedW := u.dryWhole[k]
 			nh := u.heapHavoc(st, k)
+			if u.dry > 0 {
+				u.dryWhole[k] = savedW
+			}
 			cond := "(<= r!f " + oldAlloc + ")"
 			for _, idx := range invRows {
 				cond = and(cond, not(eq("r!f", idx)))
@@ -566,6 +592,18 @@ func (fr *Frame) enterLoop(order []*ssa.BasicBlock, h *ssa.BasicBlock, ins []edg
 				ks := strings.TrimPrefix(k, "MD$")
 				u.assume(fmt.Sprintf("(forall ((r!f Int)) (! (>= (%s (select %s r!f)) 0) :pattern ((select %s r!f))))", u.enc.declFun("card$"+ks, []string{"(Array " + ks + " Bool)"}, "Int"), nh, nh))
 			}
+		} else if key := fmt.Sprintf("%s|%d|%s", fr.fn.String(), ord, k); u.dry == 0 && strings.HasPrefix(srt, "(Array Int ") && !u.blacklist[key+"|fn"] && !strings.HasPrefix(k, "$") {
+			// candidate: the loop only writes rows of objects allocated after the loop was entered
+			// (tier 1) or, failing that, after the function was entered (tier 2)
+			bound := oldAlloc
+			if u.blacklist[key] {
+				key += "|fn"
+				bound = u.heapCur(fr.topFrame().entry, "$alloc")
+			}
+			preH := u.heapCur(pre, k)
+			nh := u.heapHavoc(st, k)
+			u.assume(fmt.Sprintf("(forall ((r!f Int)) (! (=> (<= r!f %s) (= (select %s r!f) (select %s r!f))) :pattern ((select %s r!f))))", bound, nh, preH, nh))
+			autos = append(autos, autoFrame{heap: k, preH: preH, alloc: bound, key: key})
 		} else {
 			u.heapHavoc(st, k)
 		}
@@ -592,7 +630,7 @@ func (fr *Frame) enterLoop(order []*ssa.BasicBlock, h *ssa.BasicBlock, ins []edg
 			u.assume(fmt.Sprintf("(forall ((k!b %s)) (! (<= (sl_base (select %s k!b)) %s) :pattern ((select %s k!b))))", ks, rc[1], alloc, rc[1]))
 		}
 	}
-	lc := &loopCtx{header: h, ordinal: ord, phiVals: map[*ssa.Phi]Val{}}
+	lc := &loopCtx{header: h, ordinal: ord, phiVals: map[*ssa.Phi]Val{}, auto: autos}
 	for _, in := range h.Instrs {
 		phi, ok := in.(*ssa.Phi)
 		if !ok {
@@ -667,12 +705,31 @@ func (fr *Frame) closeLoop(lc *loopCtx, from *ssa.BasicBlock, st *State) {
 	if fr.fc != nil {
 		invs = fr.fc.Invariants[lc.ordinal]
 	}
+	if len(invs) > 0 && fr.parent == nil {
+		// vacuity: the back edge is reachable under everything assumed so far
+		if cov := u.oblige(st, "cover", fmt.Sprintf("%s/cover:loop%d.back", fr.fnLabel(), lc.ordinal), "true", blockPos(from), nil, "loop back edge reachable (assumptions not contradictory)"); cov != nil {
+			cov.Cover = true
+		}
+	}
 	for i, c := range invs {
-		t := fr.trInvariant(c, st, h)
-		u.oblige(st, "inv-keep", fmt.Sprintf("%s/inv-keep:%d.%s", fr.fnLabel(), lc.ordinal, clauseName(c, i)), t, blockPos(from), c, "loop invariant preserved: "+c.Src)
+		for _, pc := range fr.splitClause(c) {
+			t := fr.trInvariant(pc.c, st, h)
+			u.oblige(st, "inv-keep", fmt.Sprintf("%s/inv-keep:%d.%s%s", fr.fnLabel(), lc.ordinal, clauseName(c, i), pc.suffix), t, blockPos(from), c, "loop invariant preserved: "+pc.c.Src)
+		}
 	}
 	for phi, v := range saved {
 		fr.vals[phi] = v
+	}
+	if u.dry == 0 {
+		for _, af := range lc.auto {
+			cond := fmt.Sprintf("(forall ((r!f Int)) (=> (<= r!f %s) (= (select %s r!f) (select %s r!f))))", af.alloc, u.heapCur(st, af.heap), af.preH)
+			o := u.oblige(st, "inv-keep", fmt.Sprintf("%s/inv-keep:%d.auto-frame:%s", fr.fnLabel(), lc.ordinal, af.heap), cond, blockPos(from), nil, "inferred loop frame: pre-existing rows of "+af.heap+" unchanged")
+			if o != nil && !u.quickCheck(o) {
+				u.autoFailed = append(u.autoFailed, af.key)
+				// drop the obligation again: the candidate is withdrawn on the next build
+				u.obls = u.obls[:len(u.obls)-1]
+			}
+		}
 	}
 }
 
@@ -738,7 +795,7 @@ func (fr *Frame) exec(st *State, in ssa.Instruction) {
 		el := i.Type().Underlying().(*types.Slice).Elem()
 		h := u.arrHeap(el)
 		es := u.enc.sortOf(el)
-		u.heapStoreAt(st, h, r, fmt.Sprintf("((as const (Array Int %s)) %s)", es, u.enc.zero(el)))
+		u.heapStoreAt(st, h, r, u.enc.constArr("Int", es, u.enc.zero(el)))
 		fr.define(i, Val{T: app("mk_slice", r, "0", ln.T, cp.T)})
 	case *ssa.MakeChan:
 		fr.define(i, Val{T: u.newRef(st)})
@@ -1458,4 +1515,25 @@ func (u *Unit) strOfBytesFn() string {
 		u.enc.axioms = append(u.enc.axioms, "(forall ((r (Array Int Int)) (o Int) (n Int)) (! (=> (>= n 0) (= (str_len (str_of_bytes r o n)) n)) :pattern ((str_of_bytes r o n))))")
 	}
 	return "str_of_bytes"
+}
+
+type partClause struct {
+	c      *Clause
+	suffix string
+}
+
+// splitClause: one proof obligation per top-level conjunct (smaller queries, sharper diagnostics).
+func (fr *Frame) splitClause(c *Clause) []partClause {
+	parts := splitConjPkg(c.E, fr.u.cx.cs, fnPkgPath(fr.fn))
+	if len(parts) <= 1 {
+		return []partClause{{c, ""}}
+	}
+	var out []partClause
+	for j, p := range parts {
+		nc := *c
+		nc.E = p
+		nc.Src = p.String()
+		out = append(out, partClause{&nc, fmt.Sprintf(".c%d", j+1)})
+	}
+	return out
 }
